@@ -190,7 +190,10 @@ pub fn rec_name(kind: usize, r: u32) -> String {
     match kind {
         0 if r == 9 => String::new(),
         0 => format!("G{r}"),
+        // disease 2 of each kind has a name whose byte length exceeds its character count
+        1 if r == 2 => "\u{d6}2".to_string(),
         1 => format!("O{r}"),
+        _ if r == 4 => "R4 \u{f1}\u{20ac}".to_string(),
         _ => format!("R{r}"),
     }
 }
@@ -243,10 +246,10 @@ pub fn build_opts(c: &Case, defaults: bool, dup: bool) -> Result<Ontology, Strin
             match k {
                 0 => b.add_gene(&rec_name(0, r), GeneId::from(r)),
                 1 => {
-                    b.add_omim_disease(&format!("O{r}"), OmimDiseaseId::from(r));
+                    b.add_omim_disease(&rec_name(1, r), OmimDiseaseId::from(r));
                 }
                 _ => {
-                    b.add_orpha_disease(&format!("R{r}"), OrphaDiseaseId::from(r));
+                    b.add_orpha_disease(&rec_name(2, r), OrphaDiseaseId::from(r));
                 }
             }
             continue;
@@ -254,8 +257,8 @@ pub fn build_opts(c: &Case, defaults: bool, dup: bool) -> Result<Ontology, Strin
         let t: HpoTermId = m.ids[d as usize].into();
         let res = match k {
             0 => b.annotate_gene(GeneId::from(r), &rec_name(0, r), t),
-            1 => b.annotate_omim_disease(OmimDiseaseId::from(r), &format!("O{r}"), t),
-            _ => b.annotate_orpha_disease(OrphaDiseaseId::from(r), &format!("R{r}"), t),
+            1 => b.annotate_omim_disease(OmimDiseaseId::from(r), &rec_name(1, r), t),
+            _ => b.annotate_orpha_disease(OrphaDiseaseId::from(r), &rec_name(2, r), t),
         };
         res.map_err(|e| format!("annotate failed: {e}"))?;
     }
@@ -331,6 +334,26 @@ fn expect<T: PartialEq + std::fmt::Debug>(what: &str, got: T, exp: T) -> Check {
 pub fn check_c01(c: &Case) -> Check {
     let m = Model::new(c);
     let ont = build(c, false)?;
+    check_c01_on(&m, &ont)?;
+    if c.idmap == 0 && c.n >= 2 && c.edges & 1 == 1 {
+        // binary construction paths: the crate's writer + reader, and the independent v1/v2/v3 encoder (both record
+        // orders, no / all terms flagged obsolete) + reader. A file that does not load is C07's / C08's to report.
+        let o = build(c, true)?;
+        if let Ok(Ok(o2)) = load(&o.as_bytes()) {
+            check_c01_on(&m, &o2).map_err(|e| format!("as_bytes -> from_bytes path: {e}"))?;
+        }
+        for version in [1u8, 2, 3] {
+            for obsolete in [false, true] {
+                let enc = Enc { version, reverse: c.order & 1 == 1, flags: vec![(obsolete, 0); c.n], rename_term: None, rename_rec: None };
+                if let Ok(Ok(o3)) = load(&encode(c, &enc)) {
+                    check_c01_on(&m, &o3).map_err(|e| format!("binary v{version} path (obsolete flags {obsolete}): {e}"))?;
+                }
+            }
+        }
+    }
+    Ok(())
+}
+fn check_c01_on(m: &Model, ont: &Ontology) -> Check {
     for t in 0..m.n {
         let h = ont.hpo(m.ids[t]).ok_or("term missing")?;
         expect(&format!("ancestors of {}", m.ids[t]), grp(h.all_parent_ids()), m.idset(&m.anc[t]))?;
@@ -405,7 +428,36 @@ fn check_c02_on(m: &Model, ont: &Ontology) -> Check {
 pub fn check_c03(c: &Case) -> Check {
     let m0 = Model::new(c);
     let ont = build(c, false)?;
-    let m = m0.observed(&ont);
+    check_c03_on(&m0, &ont)?;
+    // construction path "binary file": the only one that can mark terms obsolete (needs the two standard roots: id map 0)
+    if c.n >= 2 && c.edges & 1 == 1 {
+        let c0 = Case { idmap: 0, ..c.clone() };
+        let m0 = Model::new(&c0);
+        let mut patterns: Vec<Vec<(bool, u32)>> = vec![vec![(false, 0); c.n], vec![(true, 0); c.n]];
+        for o in 0..c.n {
+            let mut f = vec![(false, 0u32); c.n];
+            f[o].0 = true;
+            patterns.push(f);
+        }
+        for flags in patterns {
+            for version in [2u8, 3] {
+                let mut cv = c0.clone();
+                if version < 3 {
+                    cv.facts.retain(|f| f.0 != 2);
+                }
+                let enc = Enc { version, reverse: false, flags: flags.clone(), rename_term: None, rename_rec: None };
+                // a file that does not load is C08's to report
+                if let Ok(Ok(ont)) = load(&encode(&cv, &enc)) {
+                    let obs: Vec<u32> = (0..c.n).filter(|&x| flags[x].0).map(|x| m0.ids[x]).collect();
+                    check_c03_on(&Model::new(&cv), &ont).map_err(|e| format!("loaded from a v{version} file in which {obs:?} are obsolete: {e}"))?;
+                }
+            }
+        }
+    }
+    Ok(())
+}
+fn check_c03_on(m0: &Model, ont: &Ontology) -> Check {
+    let m = m0.observed(ont);
     for t in 0..m.n {
         let h = ont.hpo(m.ids[t]).ok_or("term missing")?;
         let ic = h.information_content();
@@ -484,9 +536,13 @@ fn check_c10_with(c: &Case, dup: bool) -> Check {
             }
         }
     }
-    for q in ["o", "O", "", "O1", "o1", "2", "X"] {
+    // queries: ASCII and multi-byte fragments, every full name (a name contains itself), and near misses
+    let mut queries: Vec<String> = ["o", "O", "", "O1", "o1", "2", "X", "\u{d6}", "\u{d6}2", "\u{d6}2 ", "\u{f6}2"].iter().map(|s| s.to_string()).collect();
+    queries.extend(m.recs[1].keys().map(|r| rec_name(1, *r)));
+    for q in &queries {
+        let q = q.as_str();
         let found: BTreeSet<u32> = ont.omim_diseases_by_name(q).map(|d| d.id().as_u32()).collect();
-        let exp: BTreeSet<u32> = m.recs[1].keys().filter(|x| format!("O{x}").contains(q)).copied().collect();
+        let exp: BTreeSet<u32> = m.recs[1].keys().filter(|x| rec_name(1, **x).contains(q)).copied().collect();
         expect(&format!("omim_diseases_by_name({q:?})"), found, exp.clone())?;
         let first = ont.omim_disease_by_name(q).map(|d| d.id().as_u32());
         if first.is_some() != !exp.is_empty() || first.map_or(false, |f| !exp.contains(&f)) {
@@ -495,11 +551,6 @@ fn check_c10_with(c: &Case, dup: bool) -> Check {
     }
     if ont.gene_by_name("no such gene").is_some() {
         return Err("gene_by_name finds a gene that does not exist".into());
-    }
-    for (r, _) in &m.recs[1] {
-        let found: BTreeSet<u32> = ont.omim_diseases_by_name(&format!("O{r}")).map(|d| d.id().as_u32()).collect();
-        let exp: BTreeSet<u32> = m.recs[1].keys().filter(|x| format!("O{x}").contains(&format!("O{r}"))).copied().collect();
-        expect("omim_diseases_by_name", found, exp)?;
     }
     Ok(())
 }
@@ -839,10 +890,10 @@ pub fn check_c15(c: &Case) -> Check {
                 match k {
                     0 => b.add_gene(&rec_name(0, r), GeneId::from(r)),
                     1 => {
-                        b.add_omim_disease(&format!("O{r}"), OmimDiseaseId::from(r));
+                        b.add_omim_disease(&rec_name(1, r), OmimDiseaseId::from(r));
                     }
                     _ => {
-                        b.add_orpha_disease(&format!("R{r}"), OrphaDiseaseId::from(r));
+                        b.add_orpha_disease(&rec_name(2, r), OrphaDiseaseId::from(r));
                     }
                 }
                 continue;
@@ -861,8 +912,8 @@ pub fn check_c15(c: &Case) -> Check {
             }
             match k {
                 0 => b.annotate_gene(GeneId::from(r), &rec_name(0, r), t),
-                1 => b.annotate_omim_disease(OmimDiseaseId::from(r), &format!("O{r}"), t),
-                _ => b.annotate_orpha_disease(OrphaDiseaseId::from(r), &format!("R{r}"), t),
+                1 => b.annotate_omim_disease(OmimDiseaseId::from(r), &rec_name(1, r), t),
+                _ => b.annotate_orpha_disease(OrphaDiseaseId::from(r), &rec_name(2, r), t),
             }
             .map_err(|e| format!("{e}"))?;
         }
@@ -905,8 +956,38 @@ pub fn check_c16(c: &Case) -> Check {
                 return Err("binary round trip differs".into());
             }
         }
+        // binary records in both orders (terms, parent records, parent ids within a record, gene and disease
+        // records, term ids within a record): the independent encoder writes the same facts forwards and backwards
+        for version in [1u8, 2, 3] {
+            let mut cv = c.clone();
+            if version < 3 {
+                cv.facts.retain(|f| f.0 != 2);
+            }
+            let e = |reverse: bool| Enc { version, reverse, flags: vec![(false, 0); c.n], rename_term: None, rename_rec: None };
+            if let (Ok(Ok(a)), Ok(Ok(b))) = (load(&encode(&cv, &e(false))), load(&encode(&cv, &e(true)))) {
+                let (wa, wb) = (walk(&a), walk(&b));
+                if wa != wb {
+                    return Err(format!("v{version} file with its records in reverse order gives a different ontology:\n {wb}\n vs:\n {wa}"));
+                }
+            }
+        }
     }
     Ok(())
+}
+
+fn c07_round_trip(o: &Ontology, cut_names: bool) -> Result<Ontology, String> {
+    let bytes = panic::catch_unwind(panic::AssertUnwindSafe(|| o.as_bytes())).map_err(|_| "as_bytes panicked")?;
+    let r = panic::catch_unwind(|| Ontology::from_bytes(&bytes));
+    let o2 = match r {
+        Err(_) => return Err("from_bytes panicked on the writer's output".into()),
+        Ok(Err(e)) => return Err(format!("from_bytes rejected the writer's output: {e}")),
+        Ok(Ok(o2)) => o2,
+    };
+    let (w1, w2) = (walk_with(o, cut_names), walk(&o2));
+    if w1 != w2 {
+        return Err(format!("round trip differs:\n before: {w1}\n after:  {w2}"));
+    }
+    Ok(o2)
 }
 
 /// as_bytes -> from_bytes is the identity on observations (idmap 0 with edge HP:1 -> HP:118)
@@ -915,16 +996,33 @@ pub fn check_c07(c: &Case) -> Check {
         return Ok(());
     }
     let o = build(c, true)?;
-    let bytes = o.as_bytes();
-    let r = panic::catch_unwind(|| Ontology::from_bytes(&bytes));
-    let o2 = match r {
-        Err(_) => return Err("from_bytes panicked on the writer's output".into()),
-        Ok(Err(e)) => return Err(format!("from_bytes rejected the writer's output: {e}")),
-        Ok(Ok(o2)) => o2,
-    };
-    let (w1, w2) = (walk_with(&o, true), walk(&o2));
-    if w1 != w2 {
-        return Err(format!("round trip differs:\n before: {w1}\n after:  {w2}"));
+    let o2 = c07_round_trip(&o, true)?;
+    // record ids at the upper border of u32
+    if !c.facts.is_empty() {
+        let mut cb = c.clone();
+        for f in cb.facts.iter_mut() {
+            f.1 = u32::MAX - f.1;
+        }
+        let ob = build(&cb, true)?;
+        c07_round_trip(&ob, true).map_err(|e| format!("with record ids counted down from u32::MAX: {e}"))?;
+    }
+    // obsolete and replaced terms cannot be made through the Builder: ontologies loaded from the independent v3
+    // encoder (every single term obsolete and replaced by the next one; all obsolete) are written and read again
+    let mut patterns: Vec<Vec<(bool, u32)>> = vec![vec![(true, 0); c.n]];
+    let m = Model::new(c);
+    for t in 0..c.n {
+        let mut f = vec![(false, 0u32); c.n];
+        f[t] = (true, m.ids[(t + 1) % c.n]);
+        patterns.push(f.clone());
+        f[t].0 = false;
+        patterns.push(f);
+    }
+    for flags in patterns {
+        let enc = Enc { version: 3, reverse: false, flags: flags.clone(), rename_term: None, rename_rec: None };
+        // a file that does not load is C08's to report
+        if let Ok(Ok(of)) = load(&encode(c, &enc)) {
+            c07_round_trip(&of, false).map_err(|e| format!("ontology loaded from a v3 file with (obsolete, replacement) = {flags:?}: {e}"))?;
+        }
     }
     let cmp = o.compare(&o2);
     if c.n <= 3 && !(cmp.added_hpo_terms().is_empty() && cmp.removed_hpo_terms().is_empty() && cmp.changed_hpo_terms().is_empty()
@@ -2011,8 +2109,8 @@ pub fn check_c06_large(thorough: bool) -> Result<usize, String> {
             for id in 2..=(k + 1) {
                 let t: HpoTermId = id.into();
                 b.annotate_gene(GeneId::from(k), &format!("G{k}"), t).map_err(|e| format!("{e}"))?;
-                b.annotate_omim_disease(OmimDiseaseId::from(k), &format!("O{k}"), t).map_err(|e| format!("{e}"))?;
-                b.annotate_orpha_disease(OrphaDiseaseId::from(k), &format!("R{k}"), t).map_err(|e| format!("{e}"))?;
+                b.annotate_omim_disease(OmimDiseaseId::from(k), &rec_name(1, k), t).map_err(|e| format!("{e}"))?;
+                b.annotate_orpha_disease(OrphaDiseaseId::from(k), &rec_name(2, k), t).map_err(|e| format!("{e}"))?;
             }
         }
         let ont = b.calculate_information_content().map_err(|e| format!("{e}"))?.build_minimal();
